@@ -59,14 +59,21 @@ class Color(enum.IntEnum):
     B = 2
 
 
+def _np():
+    import numpy
+    return numpy
+
+
 ACCS = {
+    # a numpy vector as running value: comparing it with anything yields an array, not a bool
+    'npvec': (lambda a, x: a + x, lambda a, x: a + x, lambda: _np().zeros(2), False),
     'isum_tn': (lambda a, x: a + x, lambda a, x: a + x, lambda: 0, False),
     # ints beyond 2**53 (nanosecond timestamps, 64-bit ids): exact in an int, not in a double
     'big_isum': (lambda a, x: a + x, lambda a, x: a + x, lambda: 2 ** 53 + 1, False),
     # a seed that is an instance of an int SUBCLASS: the running value must stay a Color
     'enum': (lambda a, x: Color((a.value + x) % 3), lambda a, x: Color((a.value + x) % 3), lambda: Color.G, False),
     'isum': (lambda a, x: a + x, lambda a, x: a + x, lambda: 0, False),
-    'fsum': (lambda a, x: a + x * 0.5, lambda a, x: a + x * 0.5, lambda: 0.0, False),
+    'fsum': (lambda a, x: a + x * 0.1, lambda a, x: a + x * 0.1, lambda: 0.0, False),      # tenths: not representable in single precision
     'or': (lambda a, x: bool(a or x > 2), lambda a, x: bool(a or x > 2), lambda: False, False),
     'minmax': (lambda a, x: (min(a[0], x), max(a[1], x)), lambda a, x: (min(a[0], x), max(a[1], x)), lambda: (0, 0), False),
     'none_min': (lambda a, x: x if a is None or x < a else a, lambda a, x: x if a is None or x < a else a, lambda: None, False),
@@ -78,6 +85,7 @@ ACCS = {
     'nested': (_acc_nested, lambda a, x: [a[0] + [x], a[1] + 1], lambda: [[], 0], True),
 }
 TERMS = {
+    'npvec': lambda a: a * 2,
     'big_isum': lambda a: a - 1, 'enum': lambda a: a.name,
     # a terminator whose legitimate result is None for some keys ('no reading above the threshold')
     'isum_tn': lambda a: None if a % 2 == 0 else a,
@@ -88,7 +96,7 @@ TERMS = {
 }
 # accumulators whose terminator leaves the seed's type (a None result): the state must be an object state, which scan declares
 # when the seed is given as a factory (a typed array cannot hold the terminator's result -- stated precondition)
-FACTORY_ONLY = {'isum_tn'}
+FACTORY_ONLY = {'isum_tn', 'npvec'}
 
 
 def rec_tail(log, objs):
